@@ -82,7 +82,36 @@ def _key_compatible(k, kk):
     return False
 
 
+def _fused_lookup(d, k, default):
+    """d[k] where k is itself table[idx] for a concrete table: one look-up table[idx] -> d.get(table[idx]) indexed by idx."""
+    if type(k) is SymStr and len(k) == 1 and type(k.items[0]) is SymInt:
+        item, conv = k.items[0], chr
+    elif type(k) is SymInt:
+        item, conv = k, (lambda v: v)
+    else:
+        return _MISSING
+    if item.prov is None:
+        return _MISSING
+    table, idx, lo, hi = item.prov
+    miss = object()
+    vals = [d.get(conv(v), miss) for v in table]
+    live = vals[lo:hi + 1]
+    if any(v is miss for v in live):
+        if default is _MISSING:
+            return _MISSING          # a KeyError is possible: leave it to the general path
+        vals = [default if v is miss else v for v in vals]
+        live = vals[lo:hi + 1]
+    if not all(type(v) is int for v in live):
+        return _MISSING
+    if live == list(range(lo, hi + 1)):
+        return idx                    # the second table undoes the first: the index itself
+    return select(vals, idx)
+
+
 def dict_get(d, k, default):
+    fused = _fused_lookup(d, k, default)
+    if fused is not _MISSING:
+        return fused
     keys = [kk for kk in d.keys() if _key_compatible(k, kk)]
     hit = sor(*[k == kk for kk in keys])
     if not bool(hit):
@@ -152,9 +181,21 @@ def _m_bytes(*a, **k):
 
 
 def _m_bytearray(*a, **k):
-    if len(a) == 1 and isinstance(a[0], SymBytes):
-        raise SxUnsupported("bytearray of symbytes")
-    return bytearray(*a, **k)
+    """Every bytearray built by instrumented code is the engine's mutable byte sequence, so that symbolic bytes can be stored in it later."""
+    if k or len(a) > 1:
+        return bytearray(*a, **k)
+    if not a:
+        return SymByteArray([])
+    x = a[0]
+    if isinstance(x, SymBytes):
+        return SymByteArray(x.items)
+    if type(x) in (SymInt, SymBool):
+        return SymByteArray([0] * concretize(x))
+    if type(x) is int:
+        return SymByteArray([0] * x)
+    if isinstance(x, (bytes, bytearray, memoryview)):
+        return SymByteArray(list(bytes(x)))
+    return SymByteArray(list(x))
 
 
 class SymRange:
@@ -644,7 +685,7 @@ for _n in ("sha256", "sha1", "sha512", "sha384", "sha224", "md5", "sha3_256", "s
 
 # always dispatched to the model (no symbolic argument needed to trigger)
 TRACK_CONCRETE_HASHES = True   # concrete digests computed on a path are registered with the UF of their algorithm
-ALWAYS = {io.BytesIO: _m_BytesIO, secrets.randbelow: _m_randbelow, secrets.token_bytes: _m_token_bytes,
+ALWAYS = {io.BytesIO: _m_BytesIO, bytearray: _m_bytearray, secrets.randbelow: _m_randbelow, secrets.token_bytes: _m_token_bytes,
           secrets.randbits: _m_randbits, os.urandom: _m_token_bytes}
 
 for _n in ("sha256", "sha1", "sha512"):
